@@ -357,7 +357,7 @@ def r53(chk, m):
     def convert(textval):
         h = H(m, dimen)
         h.should_inline = A.private_only
-        it = A.Interp(model=m, scope=new, hooks=h, max_iter=14, exc_edges=False, inline=2)
+        it = A.Interp(model=m, scope=new, hooks=h, max_iter=14, exc_edges=False, inline=3, heap=True, precise_exc=True)
         outs = it.run_function(new, env={'cls': dimen, 'v': textval})
         chk.paths += len(outs)
         return {(kind, round(v, 3) if isinstance(v, float) else (v if isinstance(v, int) else repr(v))) for kind, s2, v in outs}
@@ -369,7 +369,7 @@ def r53(chk, m):
             return None
         hk = H(m, dimen)
         hk.should_inline = A.private_only
-        it = A.Interp(model=m, scope=f, hooks=hk, max_iter=4, exc_edges=False, inline=2)
+        it = A.Interp(model=m, scope=f, hooks=hk, max_iter=4, exc_edges=False, inline=3, heap=True, precise_exc=True)
         outs = it.run_function(f, env={'self': value})
         vals = {round(v, 6) if isinstance(v, float) else v for kind, s2, v in outs if kind == 'return'}
         return vals.pop() if len(vals) == 1 else None
